@@ -2,6 +2,7 @@ package main
 
 import (
 	"encoding/json"
+	"go/types"
 	"flag"
 	"fmt"
 	"os"
@@ -78,6 +79,41 @@ func loadAll(cfg *runConfig) (*Program, error) {
 		return nil, err
 	}
 	p.Theory = th
+	// every field of every query type must be classified (C02/C04: a new field forces a decision)
+	if len(ctr.FieldClass) > 0 {
+		qt := p.lookupType("query")
+		for _, ct := range p.concrete {
+			pt, ok := ct.(*types.Pointer)
+			if !ok || qt == nil || !types.Implements(ct, qt.Underlying().(*types.Interface)) {
+				continue
+			}
+			st, ok := pt.Elem().Underlying().(*types.Struct)
+			if !ok || st.NumFields() == 0 {
+				continue
+			}
+			tn := typeStr(pt.Elem())
+			cls := ctr.FieldClass[tn]
+			if cls == nil {
+				return nil, fmt.Errorf("query type %s has no `fields` classification in the contract file", tn)
+			}
+			for i := 0; i < st.NumFields(); i++ {
+				if _, ok := cls[st.Field(i).Name()]; !ok {
+					return nil, fmt.Errorf("field %s.%s is not classified (config/label/kids/state/scratch/unreset) in the contract file", tn, st.Field(i).Name())
+				}
+			}
+			for f := range cls {
+				found := false
+				for i := 0; i < st.NumFields(); i++ {
+					if st.Field(i).Name() == f {
+						found = true
+					}
+				}
+				if !found {
+					return nil, fmt.Errorf("contract file classifies %s.%s, which does not exist", tn, f)
+				}
+			}
+		}
+	}
 	// contracts must name existing functions
 	for name := range ctr.Funcs {
 		if p.Funcs[name] == nil {
@@ -105,7 +141,7 @@ func runList(cfg *runConfig) int {
 
 func hasProp(props []string, p string) bool {
 	for _, q := range props {
-		if q == p {
+		if q == p || q == p+"!" {
 			return true
 		}
 	}
@@ -299,7 +335,7 @@ func runCheck(cfg *runConfig) int {
 		name := n
 		fT0 := time.Now()
 		defer func() {}()
-		r := p.verifyFunction(name, cfg.tier, func(o *Obligation) {
+		r := p.verifyFunction(name, cfg.tier, cfg.prop, func(o *Obligation) {
 			props := p.oblProps(o, fnProps[name])
 			if !o.Cover && !hasProp(props, cfg.prop) {
 				return
@@ -486,10 +522,19 @@ func runCheck(cfg *runConfig) int {
 	return 0
 }
 
+// lockedKinds: obligations that come from a contract clause. Only these are pinned by name in
+// obligations.lock (vacuity guard): the implicit run-time checks are generated from the code and
+// legitimately come and go when the code is refactored.
+var lockedKinds = map[string]bool{"ensures": true, "conforms": true, "conforms-requires": true, "refines": true, "lockinv-restored": true,
+	"invariant-entry": true, "invariant-preserved": true, "decreases": true, "captures": true, "panic-escapes": true, "lemma": true}
+
 func updateLock(path, prop string, sum map[string]*oblSummary, undecided map[string]bool) {
 	lock := loadLock(path)
 	lock[prop] = map[string]bool{}
 	for n, s := range sum {
+		if !lockedKinds[s.kind] {
+			continue
+		}
 		if (s.status == "unsat" || s.status == "trivial") && !undecided[n] {
 			lock[prop][n] = true
 		}
